@@ -141,10 +141,12 @@ func (j *JWTTokenRequest) MarshalJSON() ([]byte, error) {
 		return b, nil
 	}
 
-	err = json.Unmarshal(b, &j.private)
+	registered := make(map[string]any)
+	err = json.Unmarshal(b, &registered)
 	if err != nil {
 		return nil, fmt.Errorf("jws: invalid map of custom claims %v", j.private)
 	}
+	mergeRegistered(j.private, registered)
 
 	return json.Marshal(j.private)
 }
